@@ -70,9 +70,9 @@ def run(ctx):
         return
     lib.coq_make(["theories/Search.vo"])
     n_prog = ctx.pick(60, 600)
-    budgets = ctx.pick([100, 2], [100, 1, 2, 5])
+    budgets = ctx.pick([100, 3], [100, 1, 2, 3, 5])
     depth = ctx.pick(5, 7)
-    progs = lib.replay_programs(ctx) or list(gen.corpus())
+    progs = lib.replay_programs(ctx) or (list(gen.corpus()) + list(gen.types_corpus()))
     feats = {}
     while len(progs) < n_prog and not ctx.replay:
         g = gen.G(ctx.rng, guard=(ctx.rng.random() < 0.7), allow_nested_reassign=False)
